@@ -83,7 +83,8 @@ def trees(tier, seed):
         out.append(rand_tree(rnd.randint(1, 3)))
     for t in out:
         for port in (True, False):
-            for flipped in ((False, "ctor"), (True, "ctor"), (True, "func")):
+            for flipped in ((False, "ctor"), (True, "ctor"), (True, "func"), (False, "func2"), (False, "ctor+func"),
+                            (True, "func3"), (True, "ctor+copy"), (True, "ctor+mul")):
                 for role in roles_:
                     yield (t, port, flipped, role)
 
@@ -142,6 +143,17 @@ def check_tree(case):
     bi = B(port=port, role=getattr(roles, role) if role else None, flipped=(flipped and how == "ctor"))
     if flipped and how == "func":
         bi = h.flipped(bi)
+    elif how == "func2":                       # two flips cancel
+        bi = h.flipped(h.flipped(bi))
+    elif how == "ctor+func":                   # constructor flag, then flipped(): not flipped
+        bi = h.flipped(B(port=port, role=getattr(roles, role) if role else None, flipped=True))
+    elif how == "func3":
+        bi = h.flipped(h.flipped(h.flipped(bi)))
+    elif how == "ctor+copy":                   # copies keep the flag
+        import copy
+        bi = copy.deepcopy(copy.copy(B(port=port, role=getattr(roles, role) if role else None, flipped=True)))
+    elif how == "ctor+mul":
+        bi = (2 * B(port=port, role=getattr(roles, role) if role else None, flipped=True))[1]
     m = h.Module(name="C10Top")
     m.add(bi, name="bb")
     want = expected_leaves(tree, port, 1 if flipped else 0, role)
@@ -291,6 +303,12 @@ def flipped_obligations(ctx):
 
 def run(ctx):
     flipped_obligations(ctx)
+    from contracts import c_bundleinst as cb
+    ctx.verify(cb.copy_engine(), cb.VERIFY_COPY, min_obligations={"hdl21.bundle:BundleInstance.__copy__": 30})
+    ctx.verify(cb.engine(), cb.VERIFY_FLIPPED, min_obligations={"hdl21.bundle:flipped": 3})
+    b = z3.Bool("flag")
+    ctx.lemma("two-flips-cancel (over the contract of flipped(): result.flipped == not arg.flipped)", [],
+              z3.Not(z3.Not(b)) == b)
     from contracts import c_export as cx
     ctx.verify(cx.engine(), [c for c in cx.VERIFY if c.key.endswith("export_port_dir")])
     ctx.run_bounded("bundle-trees", trees(ctx.tier, ctx.seed), check_tree,
